@@ -399,13 +399,13 @@ def check_capture(case):
     dirty = False
     for s in steps:
         if s == "swap":
-            dirty = True
-        if dirty:
-            continue
-        if s == "traceback":
-            unflushed += 1
+            dirty = True  # from here on the test's own logging goes to the logger it swapped in
         elif s == "flush":
-            unflushed = 0
+            unflushed = 0  # flushing acts on the captured logger object itself
+        elif dirty:
+            continue
+        elif s == "traceback":
+            unflushed += 1
         elif s == "invalid":
             invalid += 1
     cleanup_error = unflushed > 0 or invalid > 0
